@@ -1,5 +1,8 @@
 """C09 — server selection fails over in configured order and fails back."""
 import itertools
+from props import _worldprop as WP
+import worldhist as WH
+import worldgen as W
 ID = "C09"
 LEAN_TARGETS = ["Rsp.Props.C09", "Rsp.Tie.C09"]
 THEOREMS = ["Rsp.Props.C09.scan_inv", "Rsp.Props.C09.choose_meets_spec", "Rsp.Props.C09.never_failing",
@@ -49,6 +52,88 @@ def gen(rng, tier):
     return cs
 
 
+def project(op, line):
+    return line if op == "choose" else WH.project(ID, op, line)
+
+
+relevant_verdict = WP.make_relevant(ID)
+
+
+def build_one(exe, rng, idx):
+    """a realm with 2..4 servers in order; requests go unanswered until counters rise, servers answer
+    late / with replies that cannot be accepted / properly, states change; every request's choice is judged"""
+    ns = rng.choice([2, 2, 3, 3, 4])
+    cfg = W.rand_cfg(rng, rewrites=False, ttl=False, nclients=1, nservers=ns, types=[rng.choice([0, 0, 3, 2, 1])])
+    for j, sv in enumerate(cfg.servers):
+        sv["name"] = "sv%d" % j
+        sv["retry_explicit"] = True
+        sv["rc"] = rng.choice([0, 0, 1]) if sv["type"] in (0, 3) else 0
+        sv["ri"] = rng.choice([1, 2, 3])
+        sv["ss"] = rng.choice([0, 0, 0, 1, 2, 3])
+        sv["rwin"] = sv["rwout"] = None
+        sv["loopprev"] = 255
+    cfg.clients[0].update(rwin=None, rwout=None, rwuser=None, reqma=False, reqmap=False, dup=0, dup_explicit=True)
+    order = [s["name"] for s in cfg.servers]
+    rng.shuffle(order)
+    acc = list(order)
+    rng.shuffle(acc)
+    cfg.realms = [dict(name=b"*", srv=order, acc=acc if rng.random() < 0.5 else None, msg=None, accresp=False)]
+    cfg.opts["verifyeap"] = 0
+    cfg.opts["loopprev"] = 0
+    h = WH.Hist(exe, rng, cfg)
+    h.client(cfg.clients[0])
+    ident = 0
+    late = []
+    for step in range(rng.randrange(20, 70)):
+        if h.s.dead:
+            break
+        r = rng.random()
+        if r < 0.35:
+            pkt = h.make_request(0, code=rng.choice([1, 1, 4]), user=b"u@x", ident=ident % 256, extra=[], pwd=False)
+            ident += 1
+            out = h.rq(0, pkt)
+            if "fwd:" in out:
+                h.tag("chosen:" + out.split("fwd:")[1].split(":")[0])
+        elif r < 0.55:
+            h.send("writer " + rng.choice(order))
+        elif r < 0.7:
+            h.send("tick %d" % rng.choice([1, 1, 2, 3, 4, 30]))
+        elif r < 0.85 and (h.outstanding or late):
+            # an answer: proper, or late (its request was given up), or one that cannot be accepted
+            if late and (not h.outstanding or rng.random() < 0.4):
+                ent = late.pop(rng.randrange(len(late)))
+                h.tag("late-answer")
+            else:
+                ent = h.outstanding.pop(rng.randrange(len(h.outstanding)))
+                if rng.random() < 0.3:
+                    late.append(ent)
+            style = rng.randrange(5)
+            if style == 0:
+                pkt = h.make_reply(ent, attrs=[], secret=b"wrong-secret")
+                h.tag("unacceptable-answer")
+            elif style == 1:
+                pkt = bytes([2, ent[2][1], 0, 20]) + bytes(16)
+                h.tag("unacceptable-answer")
+            else:
+                pkt = h.make_reply(ent, attrs=[])
+            h.send("reply %s %s" % (ent[0], pkt.hex()))
+        elif r < 0.95:
+            h.send("srvstate %s %d %d" % (rng.choice(order), rng.choice([0, 1, 2, 2, 2, 3, 4]), rng.choice([0, 0, 1, 2, 5, 15, 16])))
+            h.tag("state-set")
+        else:
+            h.send("reset " + rng.choice(order))
+        # requests the writer gave up become candidates for late answers
+        if len(h.outstanding) > 6:
+            late.append(h.outstanding.pop(0))
+    return h.finish(kind="world", ns=ns)
+
+
+def gen_run(exe, rng, tier):
+    return WH.run_parallel(exe, rng, 120 if tier == "quick" else 3000, build_one)
+
+
 def nontrivial(c):
+    if c.tags.get("kind") == "world":
+        return sum(1 for k in c.tags if k.startswith("chosen:")) >= 2
     toks = c.lines[0].split()[1:]
     return sum(1 for t in toks if t != "x" and t.split(":")[0] in ("1", "2")) >= 2
